@@ -74,6 +74,12 @@ func init() {
 		RequirePositive: "ops:", RequireCount: 3,
 	})
 	reg(&propCfg{
+		ID: "C11", Level: "exploration",
+		Rule: "six harness row structs (all supported kinds: string, bool, int..int64, uint..uint64, float32/64, time.Time with default and custom formats, header tags incl. one with a comma) plus asset.Snapshot, with values from the extremes of each kind (strings with commas, quotes, blanks, newlines, lone CR, NUL, BOM, non-ASCII; +-MaxFloat, subnormals, +-Inf, -0; MinInt64; years 1 and 9999): random histories of WriteToFile / AppendToFile / AppendOrWriteToCsvFile with 0-6 rows on one file, always including a longer file overwritten by a shorter one, with and without header; after every step the file is read back through the codec and compared with a list model (ints exact, floats by bits, strings byte-wise, times by Equal). Files written directly with encoding/csv using a permuted header and extra columns must read back identically, also through ONE codec value reused across header orders. JSON: JSONToChan(ChanToJSON(x)) for finite float64, int64, strings, time.Time and a struct. The two-byte sequence CR LF inside strings is outside the domain (encoding/csv normalises it). distinct_nontrivial counts file histories / documents.",
+		Shards: [2]int{16, 16}, MinEvals: [2]int{100, 1500},
+		RequirePositive: "cmp:", RequireCount: 10,
+	})
+	reg(&propCfg{
 		ID: "C07", Level: "exploration",
 		Rule: "the real And/Or/Majority/Split/Inverse/NoLoss/StopLoss combinators (and nestings NoLoss(StopLoss), StopLoss(NoLoss), Inverse(NoLoss), NoLoss(Inverse), NoLoss(And)) wrap scripted stub strategies that replay chosen action words; the output is compared with slice models of the specified combination (votes over position-wise DENORMALISED words, split rule, swap, explicit no-loss / stop-loss state machines over (action, close)) and, independently, with two trace safety monitors (no Sell at a close not above the preceding Buy's close; a Sell at the first close <= buy*(1-pct)). Exhaustive: all tuples of k words of length n for k=1 (n<=7), k=2 (n<=4), k=3 (n<=2 quick / n<=3 thorough) x 4 closing series x 3 percentages where relevant; plus random words up to length 200 with up to 6 sub-strategies. MACD-RSI is compared with the agreement rule over its own two real sub-strategies. distinct_nontrivial counts distinct (shape, word tuple) cases with n >= 2.",
 		Exhaustive: "all k-tuples of action words over {Sell,Hold,Buy}: k=1 n<=7, k=2 n<=4, k=3 n<=2 (quick) / n<=3 (thorough), for every combinator shape",
